@@ -19,8 +19,17 @@ def run(ctx):
                      names=["banana4", "ladder3x", "mercedes", "banana5"])
     # seven loops (the matrix routine is specified for dimensions 1..8)
     ss += S.generate(ctx, 1 if ctx.quick else 4, 2, max_e=8, max_loops=7, routings_per_graph=2, names=["banana8"], kinds=("uniform",))
+    # ... also with every propagator massive (the mass term dominates V: little cancellation, so that the seven-loop points are not
+    # among the ill-conditioned ones that are skipped) while u^T L^-1 u still enters
+    ss += S.generate(ctx, 2 if ctx.quick else 6, 4, max_e=8, max_loops=7, routings_per_graph=1, names=["banana8"], kinds=("uniform",),
+                     mass_mode="all", ext_modes=["all"])
+    # signed permutations of the fundamental loops of 4- and 5-loop bananas: all off-diagonal entries of L are +-x_tree, and with one
+    # (or three) reversed loops their SIGNED sum vanishes although none of them does
+    ss += S.generate(ctx, 3 if ctx.quick else 12, 1, max_e=6, max_loops=5, routings_per_graph=6, names=["banana5", "banana5", "banana6"],
+                     variant="permuted", kinds=("uniform",))
     S.run(ss)
     SC.corr_uv(ctx, ss)
+    SC.corr_matrix(ctx, ss)     # V is computed from the inverse the matrix routine returns: model decomposition on the implementation's L
     groups = {}
     for s in ss:
         a, c, r = s["impl"], s["case"], s["routing"]
@@ -35,8 +44,8 @@ def run(ctx):
         if a.get("status") != "ok":
             continue
         xb = a["log"]["momtrop_feynman_parameter"]
-        if not SC.finite(xb) or not SC.finite([a["u"], a["v"], a["jac"]]):
-            ctx.count("nonfinite_skipped"); continue
+        if not SC.finite(xb):
+            ctx.count("nonfinite_parameters_skipped"); continue
         x = SC.fr_list(xb)
         ex = SC.exact_quantities(s, x)
         if ex is None or ex["det"] <= 0 or ex["V"] <= 0:
@@ -44,6 +53,8 @@ def run(ctx):
         tol = SC.tol_cond(nl, ex["cond"], ex["kappa"])
         if tol > Fraction(1, 1000):
             ctx.count("cancellation_dominates(cond*kappa)_skipped"); continue
+        if not SC.returned_finite(ctx, s, {"u": a["u"], "v": a["v"]}, {"u": ex["det"], "v": ex["V"]}):
+            continue
         # u vectors: sum_e x_e s_el p_e
         um = [[Fraction(b2f(b)) for b in row] for row in a["meta"]["u"]]
         n = len(x)
@@ -63,7 +74,10 @@ def run(ctx):
         if rel > tol:
             ctx.violation(f"v*u = {float(u*v)!r} differs from the second Symanzik polynomial F = {float(sy['F'])!r} (rel {float(rel):.2e} > tol {float(tol):.2e}; cond {float(ex['cond']):.1e}, kappa {float(ex['kappa']):.1e})",
                           S.small_req(s), expected=float(sy["F"]), observed=float(u * v)); continue
-        groups.setdefault(s["group"], []).append((s, u, v, Fraction(b2f(a["jac"])), tol))
+        if SC.finite([a["jac"]]):
+            groups.setdefault(s["group"], []).append((s, u, v, Fraction(b2f(a["jac"])), tol))
+        else:
+            ctx.count("nonfinite_jacobian_not_in_routing_comparison")
     for g, lst in groups.items():
         s0, u0, v0, j0, t0 = lst[0]
         for s1, u1, v1, j1, t1 in lst[1:]:
